@@ -351,7 +351,15 @@ func (x *Exec) native(fr *Frame, st *State, key string, callee *ssa.Function, ar
 		u.Trust("sync.Cond.Signal/Broadcast, sync.WaitGroup: no effect on the sequential state")
 		return unit, true, nil
 	case "sync.NewCond":
-		return scalar(rt, u.NewRef(st, "cond")), true, nil
+		ref := u.NewRef(st, "cond")
+		ct := rt.Underlying().(*types.Pointer).Elem()
+		cs := structOf(ct)
+		for i := 0; i < cs.NumFields(); i++ {
+			if cs.Field(i).Name() == "L" {
+				u.StoreField(st, True, ref, ct, i, args[0])
+			}
+		}
+		return scalar(rt, ref), true, nil
 	case "sync/atomic.AddUint64", "sync/atomic.AddUint32", "sync/atomic.AddInt64", "sync/atomic.AddInt32":
 		u.Trust("sync/atomic operations modelled as plain sequential updates (wrap-around addition)")
 		p, err := x.ptrOf(args[0])
@@ -491,7 +499,11 @@ func (x *Exec) externalCall(fr *Frame, st *State, key string, callee *ssa.Functi
 					name := elemComp(et, sl.Suffix)
 					so := ArrSort(SInt, ArrSort(u.IntSort(), sl.So))
 					all := u.comp(st, name, so)
-					u.setComp(st, name, Store(all, a.S[0], u.Fresh("extarr", ArrSort(u.IntSort(), sl.So))))
+					ea := u.Fresh("extarr", ArrSort(u.IntSort(), sl.So))
+					if sl.Int != nil && u.Mode == ModeInt {
+						u.emit(fmt.Sprintf("(assert (forall ((tj Int)) (! (and (<= %s (select %s tj)) (<= (select %s tj) %s)) :pattern ((select %s tj)))))", BigLit(sl.Int.min()).S, ea.S, ea.S, BigLit(sl.Int.max()).S, ea.S))
+					}
+					u.setComp(st, name, Store(all, a.S[0], ea))
 				}
 			default:
 				risky = true
